@@ -47,6 +47,15 @@ func evalC14(in []byte) (vs []*Violation, accepted bool) {
 				plain = false
 			}
 		}
+		if !bytes.Contains(rest, []byte("@")) {
+			// no userinfo: whatever the number looks like (also number:digits), it is reported as the user, host empty
+			if present(u.Host) {
+				add("tel-host-empty", "host-present", fmt.Sprintf("Host=%v User=%v", u.Host, u.User))
+			}
+			if u.User.Len == 0 || int(u.User.Offs) != 4 {
+				add("tel-number-in-user", "user-missing", fmt.Sprintf("User=%v", u.User))
+			}
+		}
 		if plain && !bytes.ContainsAny(rest, "@:[]") {
 			if present(u.Host) {
 				add("tel-host-empty", "host-present", fmt.Sprintf("Host=%v", u.Host))
@@ -135,7 +144,11 @@ func checkC14(r *Run) {
 			vs, acc := evalC14(s)
 			c.st.Evals++
 			c.st.Transitions++
+			if !acc {
+				c.st.Outcomes["rejected"]++
+			}
 			if acc {
+				c.st.Outcomes["accepted"]++
 				c.st.Nontrivial++
 				c.st.States++
 				if len(c.st.Samples) < 2 && len(s) > 8 {
